@@ -1,13 +1,20 @@
 """C14  Variables compose like functions and keep each variable's description.
 
 spec/VarSem.tla           var_context of Variable / Compose / Combine, UpdateCtx (the documented
-                          update of context.variable), getters; the DECLARATIVE closed form
-                          Described(ctx, chain) for chains with pairwise distinct non-empty types
+                          update of context.variable); getters G with the data each can take
+                          (Accepts) over the DATA KINDS integer, None, tuple, hit = a pair that
+                          itself looks like a (data, context) value; the reference Get (Compose =
+                          composition, Combine = tuple of the getters' results, on any data) and the
+                          machine CallData (what __call__ does with the data; Variant switches);
+                          the DECLARATIVE closed form Described(ctx, chain) for chains with pairwise
+                          distinct non-empty types
 spec/Variables.tla        machine: ApplyVar (Sequence step), ApplyCompose, ApplyCombine, Repeat;
-                          invariants DataEq, ComposeEqSeq, CombineTuple, TypedDeclarative (every
-                          prefix), NestedFlattens, CarriesName, FrameVariableOnly, VarUnchanged,
-                          Repeatable; switches ExtendByCompose / CopyVarContext give design-level
-                          counterexamples
+                          invariants DataEq (every prefix), ComposeEqSeq, CombineTuple,
+                          TypedDeclarative (every prefix), NestedFlattens, CarriesName,
+                          FrameVariableOnly, VarUnchanged, Repeatable; switches ExtendByCompose /
+                          CopyVarContext / Variant = combine-via-call, skip-missing give design-level
+                          counterexamples.  Configurations a (plain chains), b (nested Compose /
+                          Combine elements), c (data kinds, Combine anywhere in the chain)
 spec/Trace_Variables.tla  validation of runs recorded with random variables / attributes
 
 What is compared on the implementation (only what the statement fixes):
@@ -46,21 +53,32 @@ def check_scenario(ctx, chain, start, exp, stats, origin="s2c"):
     if collides:
         sk += "+same-type"
     tag = sk if plain else "nested"
+    x = vl.dec_data(start["d"])
+    # data kinds: None, a tuple, a pair that itself looks like a (data, context) value
+    dk = vl.data_kind(x)
+    if dk != "int":
+        tag += "+data-" + dk
+    if exp is not None:
+        combok, barable = exp["combok"], exp["barable"]
+    else:
+        combok = vl.defined(chain, x)[1]
+        barable = not startc and not vl.looks_like_value(x)
+    stats["data_" + dk] = stats.get("data_" + dk, 0) + 1
+    stats["no_combine"] = stats.get("no_combine", 0) + int(not combok)
     detail = {"n": n, "start_kind": sk, "chain": [vl.sig(e) for e in chain], "start": {"d": vl.dec_data(start["d"]), "c": startc}}
-    for bare in ((False, True) if not startc else (False,)):
+    for bare in ((False, True) if barable else (False,)):
         try:
-            o = vl.run_scenario(chain, start, bare)
+            o = vl.run_scenario(chain, start, bare, combok)
         except Exception as exc:   # noqa
             ctx.violation("%s:raised:%s:%s" % (origin, exc_name(exc), tag), dict(detail, exception=repr(exc)))
             return None
         ctx.case([origin, chain, start, bare], nontrivial=True)
         stats["scenarios"] += 1
-        x = vl.dec_data(start["d"])
         want = x
         ok_data = True
         try:
             for e in chain:
-                want = _get(e, want)
+                want = vl.get(e, want)
         except Exception:   # noqa
             ok_data = False
         if exp is not None:
@@ -71,6 +89,10 @@ def check_scenario(ctx, chain, start, exp, stats, origin="s2c"):
             return None
         if o["seq2"] != o["seq"]:
             ctx.violation("seq:not-repeatable:same-flow:" + tag, dict(detail, first=o["seq"], second=o["seq2"]))
+        # a result does not change after it was produced (later values of the flow, later calls)
+        if o["seq_later"] != o["seq_at_yield"]:
+            ctx.violation("seq:result-changed-later:" + tag,
+                          dict(detail, when_produced=o["seq_at_yield"], later=o["seq_later"]))
         # ---- same data
         if ok_data and (o["seq"][0] != want or o["compose"][0] != want):
             ctx.violation("compose:data:" + tag, dict(detail, expected=want, sequence=o["seq"][0],
@@ -78,18 +100,19 @@ def check_scenario(ctx, chain, start, exp, stats, origin="s2c"):
         # ---- same context (not demanded for a chain with an untyped variable on a value whose
         # context.variable is typed: outside "variables with distinct types", and the documentation
         # warns that an untyped variable loses the earlier descriptions - counted only)
-        if vl.has_untyped(chain) and _prev_types(startc):
+        if vl.loses_types(chain) and _prev_types(startc):
             stats["untyped_after_typed"] += 1
             stats["untyped_after_typed_differs"] += int(o["seq"][1] != o["compose"][1])
         elif o["seq"][1] != o["compose"][1]:
             ctx.violation("compose-vs-sequence:context:" + tag,
                           dict(detail, sequence=o["seq"][1], compose=o["compose"][1]))
         # ---- Combine: tuple of the getters' results; name, dim, combine
-        cwant = tuple(_get(e, x) for e in chain) if exp is None else vl.dec_data(exp["combine"]["d"])
-        if o["combine"][0] != cwant:
-            ctx.violation("combine:data:" + tag, dict(detail, expected=cwant, observed=o["combine"][0]))
+        if combok:
+            cwant = tuple(vl.get(e, x) for e in chain) if exp is None else vl.dec_data(exp["combine"]["d"])
+            if o["combine"][0] != cwant:
+                ctx.violation("combine:data:" + tag, dict(detail, expected=cwant, observed=o["combine"][0]))
         cvar = o["combine"][1].get("variable", {})
-        if exp is not None:
+        if exp is not None and combok:
             ev = vl.dec(exp["combine"]["c"])["variable"]
             req = dict((key, ev[key]) for key in ("name", "dim", "combine"))
             if not vl.contains(cvar, req):
@@ -122,7 +145,7 @@ def check_scenario(ctx, chain, start, exp, stats, origin="s2c"):
                 else:
                     stats["exact"] += int(var == ev)
                     stats["typed_checked"] += 1
-            elif not plain and not vl.has_untyped(chain):
+            elif not plain and not vl.loses_types(chain):
                 # nested Compose in the chain: compose lists type names only, the chain's types in order
                 comp = var.get("compose")
                 if comp is not None:
@@ -133,7 +156,7 @@ def check_scenario(ctx, chain, start, exp, stats, origin="s2c"):
                         ctx.violation("%s:description:compose-nested:%s" % (route, tag),
                                       dict(detail, observed=comp, chain_types=types))
         # ---- frame: nothing but context.variable changes
-        for route in ("seq", "compose", "combine"):
+        for route in ("seq", "compose", "combine") if combok else ("seq", "compose"):
             rest = dict((key, v) for key, v in o[route][1].items() if key != "variable")
             rest0 = dict((key, v) for key, v in startc.items() if key != "variable")
             if rest != rest0:
@@ -146,16 +169,6 @@ def check_scenario(ctx, chain, start, exp, stats, origin="s2c"):
                 ctx.violation("%s:not-repeatable:%s" % (route, tag),
                               dict(detail, first=o[route], second=o["r" + route]))
     return o
-
-
-def _get(e, x):
-    if e["k"] == "var":
-        return vl.GETTERS[e["v"]["g"]](x)
-    if e["k"] == "cmp":
-        for c in e["ch"]:
-            x = _get(c, x)
-        return x
-    return tuple(_get(c, x) for c in e["ch"])
 
 
 def _prev_types(startc):
@@ -190,10 +203,28 @@ def random_attrs(rnd):
     return out
 
 
+INT_GETTERS = ["inc", "dbl", "tri", "sq", "add5"]
+KIND_GETTERS = ["none", "pair", "first", "hit", "len", "layer", "dflt", "isnone"]
+
+
 def random_scenario(rnd):
+    """A random scenario whose getters can take the data they are given (VarSem!DefChain);
+    one in three with the data kinds None / tuple / hit."""
+    kinds = rnd.random() < 0.35
+    for _ in range(200):
+        chain, start = _random_scenario(rnd, kinds)
+        if vl.defined(chain, vl.dec_data(start["d"]))[0]:
+            return chain, start
+    return _random_scenario(rnd, False)
+
+
+def _random_scenario(rnd, kinds):
     n = rnd.randint(1, 5)
     types = rnd.sample(TYPE_NAMES, n + 2)
-    getters = rnd.sample(["inc", "dbl", "tri", "sq", "add5"], n)
+    if kinds:
+        getters = [rnd.choice(KIND_GETTERS) if rnd.random() < 0.7 else rnd.choice(INT_GETTERS) for _ in range(n)]
+    else:
+        getters = rnd.sample(INT_GETTERS, n)
     names = rnd.sample(["positron", "x", "y", "mm", "sq", "far", "E", "t", "phi", "q"], n + 2)
 
     def var(j):
@@ -207,11 +238,14 @@ def random_scenario(rnd):
         j = rnd.randint(0, n - 2)
         chain[j:j + 2] = [{"k": "cmp", "ch": plain[j:j + 2],
                            "v": {"name": [], "type": "", "attrs": {}, "g": ""}}]
-    if len(chain) >= 2 and chain[-1]["k"] == "var" and chain[-2]["k"] == "var" and rnd.random() < 0.2:
+    # a Combine of two adjacent variables: in the last position; with data kinds anywhere
+    j = rnd.randint(0, len(chain) - 2) if kinds and len(chain) >= 2 else len(chain) - 2
+    if len(chain) >= 2 and chain[j]["k"] == "var" and chain[j + 1]["k"] == "var" \
+            and rnd.random() < (0.4 if kinds else 0.2):
         kw = {"name": [], "type": "", "attrs": {}, "g": ""}
         if rnd.random() < 0.5:
             kw = {"name": ["K"], "type": "pair", "attrs": random_attrs(rnd), "g": ""}
-        chain[-2:] = [{"k": "cmb", "ch": chain[-2:], "v": kw}]
+        chain[j:j + 2] = [{"k": "cmb", "ch": chain[j:j + 2], "v": kw}]
     r = rnd.random()
     if r < 0.25:
         c = {}
@@ -234,7 +268,10 @@ def random_scenario(rnd):
         c = val[1]
         if rnd.random() < 0.3:
             c["data"] = {"run": "r2"}
-    return chain, {"d": vl.enc_data(rnd.randint(0, 3)), "c": vl.enc(c)}
+    x = rnd.randint(0, 3)
+    if kinds and rnd.random() < 0.6:
+        x = rnd.choice([None, (x, x + 1), ((x, x + 1), {"layer": x}), (x, {"layer": 5})])
+    return chain, {"d": vl.enc_data(x), "c": vl.enc(c)}
 
 
 def nullv():
@@ -259,7 +296,11 @@ def c2s(ctx, n, stats):
 
 def demo_defect_models(ctx):
     for cfg, what, inv in (("Variables_extend.cfg", "ExtendByCompose=FALSE (list.extend(type string))", "ComposeEqSeq"),
-                           ("Variables_nocopy.cfg", "CopyVarContext=FALSE", "VarUnchanged")):
+                           ("Variables_nocopy.cfg", "CopyVarContext=FALSE", "VarUnchanged"),
+                           ("Variables_viacall.cfg", "Variant=combine-via-call (Combine's getter goes through the "
+                            "members' public call: data that looks like a value is split again)", "CombineTuple"),
+                           ("Variables_skipnone.cfg", "Variant=skip-missing (__call__ leaves data None untouched, "
+                            "the getters of Compose / Combine do not)", "DataEq")):
         res = ctx.mc("Variables", cfg, expect_violation="report")
         if res.exit == 0 or res.violated != inv:
             raise core.MachineryError("defect model %s does not violate %s (exit %s, %s)"
@@ -290,6 +331,19 @@ class Background(object):
             raise self.exc
 
 
+class Exporter(object):
+    """ctx.export in a thread of its own (one single-worker TLC per configuration, side by side)."""
+
+    def __init__(self, ctx, cfg):
+        self.recs = None
+        self.bg = Background([lambda: setattr(self, "recs", ctx.export(
+            "Variables", cfg.replace(".cfg", "_export.cfg"), min_records=300))])
+
+    def result(self):
+        self.bg.join()
+        return self.recs
+
+
 def run(ctx):
     # private scratch directory: a concurrent invocation of the same check must not wipe ours
     # (core.Ctx makes one itself now; only an old shared build/<ID> is replaced)
@@ -305,20 +359,27 @@ def _run(ctx):
     tag = "thorough" if ctx.thorough else "quick"
     ctx.assume("variables of a chain have pairwise distinct non-empty types; attribute names differ from "
                "name/type/compose/combine/dim and from type names")
-    ctx.assume("getters are taken from a fixed table of integer functions; Combine occurs only as the last "
-               "element of a chain")
+    ctx.assume("getters are taken from a fixed table (integer functions; producers of None, pairs and hits; "
+               "first / len / layer; default-for-None, is-None); a chain is applied to a starting value when no "
+               "getter raises on the way; Combine(chain) when every member can take the starting data")
     ctx.assume("of a pre-existing typed context.variable only its compose/type order is required to persist, "
                "not which other keys survive")
     stats = {"scenarios": 0, "typed_checked": 0, "exact": 0, "untyped_after_typed": 0,
              "untyped_after_typed_differs": 0}
-    cfgs = ["Variables_%s_a.cfg" % tag, "Variables_%s_b.cfg" % tag]
-    # design level in a background thread (many workers); -coverage (slow) on a small configuration
+    # a: plain chains, b: nested Compose / Combine elements, c: data kinds (None, tuples, data that looks
+    # like a (data, context) pair; Combine anywhere in the chain)
+    cfgs = ["Variables_%s_a.cfg" % tag, "Variables_%s_b.cfg" % tag, "Variables_%s_c.cfg" % tag]
+    # design level in background threads; -coverage (slow) on a small configuration
+    # quick tier: the export configurations carry the invariants themselves (one exploration per
+    # configuration); thorough tier: separate model-checking runs with many workers
     jobs = [lambda: ctx.mc("Variables", "Variables_cov.cfg", coverage=True, must_cover=ACTIONS, workers=2)]
-    jobs += [(lambda cfg=cfg: ctx.mc("Variables", cfg)) for cfg in cfgs]
-    jobs.append(lambda: demo_defect_models(ctx))
+    if ctx.thorough:
+        jobs += [(lambda cfg=cfg: ctx.mc("Variables", cfg)) for cfg in cfgs]
     bg = Background(jobs)
-    for cfg in cfgs:
-        recs = ctx.export("Variables", cfg.replace(".cfg", "_export.cfg"), min_records=300)
+    bg2 = Background([lambda: demo_defect_models(ctx)])
+    exports = [Exporter(ctx, cfg) for cfg in cfgs]
+    for exp in exports:
+        recs = exp.result()
         for r in recs:
             check_scenario(ctx, r["chain"], r["start"], r, stats)
         ctx.sample({"spec_behaviour": _brief(recs[len(recs) // 2])})
@@ -328,12 +389,16 @@ def _run(ctx):
                     if all(e["k"] == "var" for e in r["chain"]) else "nested")
     ctx.binding_demo("Trace_Variables", "Trace_Variables.cfg", trace, corrupt)
     bg.join()
+    bg2.join()
     ctx.extra["c14"] = stats
     return ctx.finish(
         rule="S2C: every (chain, starting value) of the bounded machine (quick: chains of 1..4 of 4 plain variables, "
              "nested Compose/Combine elements over 3; thorough: 1..5 of 5, nested over 4) x 6 starting contexts x "
-             "2 data values, executed as Sequence, Compose and Combine on the real classes, twice; C2S: seeded "
-             "random variables with random attribute dictionaries, chains 1..5, validated by Trace_Variables",
+             "2 data values, and chains of size 1..3 (1..4) over 6 (8) variables and 4 (13) Combines producing / "
+             "taking None, tuples and data that looks like a (data, context) pair x starting data integer / None / "
+             "hit (/ tuple), executed as Sequence, Compose and Combine on the real classes, twice; C2S: seeded "
+             "random variables with random attribute dictionaries, chains 1..5, a third with the data kinds, "
+             "validated by Trace_Variables",
         exhaustive=True)
 
 
